@@ -4,6 +4,7 @@ import RgVerif.Spec.GlobDoc
 import RgVerif.Lemmas.GlobDocSimple
 import RgVerif.Lemmas.GlobDocStar
 import RgVerif.Lemmas.GlobDocClass
+import RgVerif.Lemmas.GlobDocAlt
 namespace RgVerif.Driver.C12
 open RgVerif RgVerif.Glob
 
@@ -56,7 +57,7 @@ def handle (cmd : String) (args : List Sx) : String :=
       | .error e => "err " ++ errName e
       | .ok toks =>
         let gl : Glob := { opts := o, tokens := toks }
-        s!"ok {stratName (strategyOf gl)} {toHex (toRegex o toks)} {if GlobDoc.okGlob (docOpts o) cs then 1 else 0} {if tokensValid toks then 1 else 0} {if simpleGlob o.be cs || okStarGlob o.be cs || okClassGlob o.be cs then 1 else 0}"
+        s!"ok {stratName (strategyOf gl)} {toHex (toRegex o toks)} {if GlobDoc.okGlob (docOpts o) cs then 1 else 0} {if tokensValid toks then 1 else 0} {if simpleGlob o.be cs || okStarGlob o.be cs || okClassGlob o.be cs || okAltGlob o cs then 1 else 0}"
   | "c12.set", [.list (.atom "globs" :: gs), .list (.atom "paths" :: ps)] =>
     match gs.mapM parseGlobSx, ps.mapM Sx.bytes? with
     | some gs, some ps =>
